@@ -1053,7 +1053,7 @@ def run(ctx):
     # 2. histories
     rng = ctx.rng("gen")
     histories = [(n, [normalise_op(o) for o in ops]) for n, ops in targeted_histories()]
-    n_random = ctx.pick(220, 8000)
+    n_random = ctx.pick(220, 5000)
     for i in range(n_random):
         flavour = rng.choices(["mixed", "merge", "fresh", "intrinsic"], weights=[5, 3, 2, 2])[0]
         nslots = rng.choices([1, 2, 3, 4], weights=[3, 4, 4, 1])[0]
